@@ -224,8 +224,9 @@ def write_vtr(path, extent, ordinates, point_fields, cell_fields, cfg: Cfg, whol
     body += _fields_xml(w, "PointData", point_fields)
     body += _fields_xml(w, "CellData", cell_fields)
     body += "      <Coordinates>\n"
-    for nm, o in zip(("x", "y", "z"), ordinates):
-        body += w.data_array(nm, coord_type, 1, list(o))
+    types = [coord_type] * 3 if isinstance(coord_type, str) else list(coord_type)     # (one number type per ordinate vector)
+    for nm, o, ct in zip(("x", "y", "z"), ordinates, types):
+        body += w.data_array(nm, ct, 1, [int(x) for x in o] if ct.startswith(("Int", "UInt")) else list(o))
     body += "      </Coordinates>\n    </Piece>\n  </RectilinearGrid>\n"
     return _finish(path, w, "RectilinearGrid", body)
 
